@@ -50,6 +50,12 @@ TraceNext ==
 
 TraceSpec == TraceInit /\ [][TraceNext]_tvars
 
+(* batch mode: the contract clauses are part of the step, so a history that breaks one is simply *)
+(* not accepted (and the other histories of the batch are still examined); the Diag         *)
+(* configurations run TraceSpec with the clauses as INVARIANT / PROPERTY to name the one.   *)
+TraceNextChecked == TraceNext /\ (undef' \/ (AllInv' /\ AllAct))
+TraceSpecChecked == TraceInit /\ [][TraceNextChecked]_tvars
+
 (* Reports; the harness reads them from TLC's output.  *)
 Accepted == (l = Len(Traces[tid].ev) + 1) => PrintT(<<"ACCEPTED", Traces[tid].id>>)
 Progress == PrintT(<<"REACHED", Traces[tid].id, l>>)
